@@ -19,6 +19,10 @@ pub fn str_witnesses() -> Vec<Vec<u8>> {
         b"0x1f40".to_vec(),
         b"[1,2]".to_vec(),
         b"null".to_vec(),
+        // texts that spell a value of ANOTHER kind
+        b"1".to_vec(),
+        b"true".to_vec(),
+        b"-5".to_vec(),
     ]
 }
 
